@@ -33,9 +33,9 @@ RESERVED = ["__init__", "__init_subclass__", "__class__", "__module__", "__weakr
             "__le__", "__lt__", "__dir__", "__enter__", "__exit__", "__copy__", "__deepcopy__", "__sizeof__", "__getattr__", "__setattr__",
             "__hasattr__", "__getattribute__", "__delattr__", "__instancecheck__", "__subclasscheck__", "__getinitargs__", "__getnewargs__",
             "__getstate__", "__setstate__", "__reduce__", "__reduce_ex__", "__subclasshook__"]
-PUBLIC = ["alpha", "beta", "gamma", "delta", "eps", "Zeta", "x1"]
+PUBLIC = ["alpha", "beta", "gamma", "delta", "eps", "Zeta", "x1", "alpha__", "x_"]
 CUSTOM_DUNDER = ["__len__", "__iter__", "__getitem__", "__contains__", "__alpha__", "__index__"]
-PRIVATE = ["_alpha", "__beta", "_", "__", "___", "_x_", "__x_"]
+PRIVATE = ["_alpha", "__beta", "_", "__", "___", "_x_", "__x_", "_alpha__", "_flush__", "__gamma_", "_x__", "____", "_____"]
 REAL_RESERVED = ["__call__", "__enter__", "__exit__", "__copy__", "__format__", "__sizeof__"]   # safe to define as real logging members
 KINDS = ["method", "static", "class", "prop_ro", "prop_rw", "prop_wo", "attr", "iattr", "helper"]
 
@@ -225,7 +225,7 @@ def member(draw):
     kind = draw(st.sampled_from(KINDS + ["method", "prop_rw", "prop_ro"]))
     if name in REAL_RESERVED + CUSTOM_DUNDER and kind in ("static", "class", "prop_ro", "prop_rw", "prop_wo", "attr", "iattr", "helper"):
         kind = "method"
-    if name in ("__", "___", "_") and kind in ("iattr", "helper"):
+    if name in ("__", "___", "_", "____", "_____") and kind in ("iattr", "helper"):
         kind = "method"
     m = {"name": name, "kind": kind, "exposed": draw(st.booleans()), "oneway": draw(st.integers(0, 3)) == 0}
     if kind == "helper":
@@ -258,7 +258,7 @@ def case_strategy(draw):
         n = m["name"]
         names.append(n)
         bare = n.strip("_") or "x"
-        names += draw(st.lists(st.sampled_from(["_" + bare, "__" + bare, "__" + bare + "__", bare, n + ".__class__", n + ".run", n + ".__call__",
+        names += draw(st.lists(st.sampled_from(["_" + bare, "__" + bare, "__" + bare + "__", bare, "_" + bare + "__", "__" + bare + "_", bare + "__", n + ".__class__", n + ".run", n + ".__call__",
                                                 n + ".__func__", n.upper(), n + " ", "а" + n[1:] if n.startswith("a") else n + "​"]),
                                max_size=2))
     names += draw(st.lists(st.sampled_from(RESERVED), min_size=2, max_size=5))
